@@ -936,10 +936,59 @@ class _ConcatP:
         return union.unique()
 
 
+class _When:
+    """pl.when(cond): `.then(a)` is an expression giving a where cond is TRUE and null elsewhere (cond false OR null);
+    `.otherwise(b)` replaces that null by b.  Chained `.when(...)` is not modelled."""
+
+    __pyvc_symbolic__ = True
+
+    def __init__(self, cond):
+        self.cond = cond if isinstance(cond, Expr) else lit(cond)
+
+    def then(self, a):
+        return _then(self.cond, a if isinstance(a, Expr) else lit(a), None)
+
+
+def _then(cond, a, b):
+    is_sel = lambda x: isinstance(x, Expr) and x.multi is not None and hasattr(x, "per_column")  # noqa: E731
+    sels = [x for x in (cond, a, b) if is_sel(x)]
+    if sels:
+        # over a selector: the same expression column by column
+        m = Expr(None, None, multi=sels[0].multi)
+        pc = lambda x, n: x.per_column(n) if is_sel(x) else x  # noqa: E731
+        m.per_column = lambda n: _then(pc(cond, n), pc(a, n), pc(b, n))
+        if b is None:
+            m.otherwise = lambda v: _then(cond, a, v if isinstance(v, Expr) else lit(v))
+        return m
+
+    def ev(fr):
+        c, x = cond.ev(fr), a.ev(fr)
+        y = b.ev(fr) if b is not None else None
+        holds = lambda i: z3.And(z3.Not(c.null(i)), _zb(c.at(i)))  # noqa: E731
+
+        def at(i):
+            return ite(SBool(holds(i)), x.at(i), y.at(i)) if y is not None else x.at(i)
+
+        def null(i):
+            return z3.If(holds(i), x.null(i), y.null(i) if y is not None else z3.BoolVal(True))
+
+        def nan(i):
+            return z3.If(holds(i), x.nan(i), y.nan(i) if y is not None else z3.BoolVal(False))
+
+        return Col(at, null, x.kind, nan=nan)
+
+    e = Expr(ev, a.name if a.name is not None else "literal")
+    if b is None:
+        e.otherwise = lambda v: _then(cond, a, v if isinstance(v, Expr) else lit(v))
+        e.when = lambda *a_, **k_: (_ for _ in ()).throw(Unsupported("chained pl.when(...).then(...).when(...)"))
+    return e
+
+
 def install(I):
     import polars as pl
 
     M = I.models
+    M[id(pl.when)] = lambda I, *conds, **kw: _When(conds[0]) if len(conds) == 1 and not kw else (_ for _ in ()).throw(Unsupported("pl.when with several predicates"))
     M[id(pl.col)] = lambda I, *a: col(*a)
     M[id(pl.lit)] = lambda I, v, dtype=None, **kw: lit(v)
     M[id(pl.all)] = lambda I, *a: col(*a) if a else col("*")
